@@ -5,6 +5,7 @@ one call to the next OUTSIDE the arguments:
   * a memoising decorator (functools.lru_cache / cache / cached_property, joblib-style `.cache`, any decorator whose name contains 'cache' or 'memo');
   * a write through a MODULE-LEVEL name (a name bound at the top level of the module - constant, dict, list, class, function - and not rebound locally in the
     function): `NAME[k] = v`, `NAME.attr = v`, `del NAME[k]`, `NAME += v`, `NAME.append / update / pop / clear / setdefault / extend / insert / remove / add / discard(...)`;
+  * a note written into a table's METADATA (`df.attrs[k] = v`, `df.attrs.update(...)`): pandas copies it into every slice and copy, so it outlives the call;
   * a MUTABLE DEFAULT ARGUMENT that the body writes (`def f(x, _seen={})` ... `_seen[k] = v`);
   * a module-level name bound to a MUTABLE CONTAINER (dict / list / set literal or constructor, comprehension, `np.zeros / array / empty / ones(...)`), or a mutable
     default argument, that a function HANDS OUT as it is (`x = x or DEFAULTS`, `return DEFAULTS`, `kwargs = DEFAULTS if kwargs is None else kwargs`, `self.kw = kw`,
@@ -208,6 +209,16 @@ def extract():
                 elif isinstance(n, ast.Call) and isinstance(n.func, ast.Attribute) and n.func.attr in MUTATORS:
                     r = _root(n.func.value)
                     if r != 'self': flag(r, 'call %s' % ast.unparse(n.func))
+                    if isinstance(n.func.value, ast.Attribute) and n.func.value.attr in ('attrs', 'flags', '_metadata'):
+                        found.append((name, 'metadata attached to a table: %s' % ast.unparse(n.func)))
+                if isinstance(n, (ast.Assign, ast.AugAssign, ast.AnnAssign)):
+                    for t in (n.targets if isinstance(n, ast.Assign) else [n.target]):
+                        for x in ast.walk(t):
+                            # `df.attrs[k] = v` / `df.attrs = {...}`: pandas copies attrs into every slice and copy of the table, so the note travels on with
+                            # tables whose values have changed since - state that outlives the call without being an argument anyone wrote
+                            if isinstance(x, ast.Attribute) and x.attr in ('attrs', '_metadata') and isinstance(x.ctx, (ast.Store, ast.Load)) and \
+                               (x is t or any(isinstance(y, ast.Subscript) and y.value is x for y in ast.walk(t))):
+                                found.append((name, 'metadata attached to a table: %s' % ast.unparse(t)))
     return sorted(set(found))
 
 def lean_str(s): return '"' + s.replace('\\', '\\\\').replace('"', '\\"') + '"'
